@@ -263,7 +263,7 @@ def _classes_passed(repo, typed: Typed, qual: str, fn: ast.FunctionDef, param: s
     return out if n else set()
 
 
-def rule_scan_direction(ctx: Ctx):
+def rule_scan_direction(ctx: Ctx, rule: str = "R-C01-6"):
     """sibling agreement inside match_on_tokens: the forward and the backward
     scan must anchor, grow and truncate the text on matching sides."""
     repo = ctx.repo
@@ -297,12 +297,12 @@ def rule_scan_direction(ctx: Ctx):
     want = {"forward": {"anchor": "start", "grow": "append", "truncate": "keep-head", "indexes": "ascending"},
             "backward": {"anchor": "end", "grow": "prepend", "truncate": "keep-tail", "indexes": "descending"}}
     for side in ("forward", "backward"):
-        ctx.ob("R-C01-6", f"helpers.match_on_tokens/{side}-scan", facts[side] == want[side],
+        ctx.ob(rule, f"helpers.match_on_tokens/{side}-scan", facts[side] == want[side],
                f"a {side} scan must walk the tokens {want[side]['indexes']}, {want[side]['grow']} their text, anchor the pattern at the {want[side]['anchor']} and, when the "
                f"window is full, {want[side]['truncate']} (the side next to the citation); found {facts[side]}", node=fn, mod=hm)
     # stop tokens
     stops = [norm(n.test) for n in walk_local(fn) if isinstance(n, ast.If) and any(isinstance(s, ast.Break) for s in n.body)]
-    ctx.ob("R-C01-6", "helpers.match_on_tokens/stop-conditions", any("ParagraphToken" in s for s in stops) and any("strings_only" in s for s in stops) and any("MAX_MATCH_CHARS" in s for s in stops),
+    ctx.ob(rule, "helpers.match_on_tokens/stop-conditions", any("ParagraphToken" in s for s in stops) and any("strings_only" in s for s in stops) and any("MAX_MATCH_CHARS" in s for s in stops),
            f"the scan stops at a paragraph token, at a special token when strings_only, and at the character budget ({stops})", node=fn, mod=hm, nontrivial=False)
 
 
